@@ -10,6 +10,7 @@ import (
 	"strings"
 
 	gcmd "github.com/evolbioinfo/gotree/cmd"
+	"github.com/evolbioinfo/gotree/io/phyloxml"
 	"github.com/evolbioinfo/gotree/tree"
 
 	"verif/ref"
@@ -206,6 +207,11 @@ func init() {
 	for _, n := range []int{3, 4, 5} {
 		c20Configs = append(c20Configs, c20Config{kind: "uniformtree", n: n, flag: true}, c20Config{kind: "uniformtree", n: n, flag: true, lib: true})
 	}
+	// the second tree of a two-tree file must be sampled like the first one; sampling from a PhyloXML file like from a Newick one
+	c20Configs = append(c20Configs,
+		c20Config{kind: "prune2", n: 5, k: 1}, c20Config{kind: "prune2", n: 6, k: 2}, c20Config{kind: "prune2", n: 6, k: 3, flag: true},
+		c20Config{kind: "samplexml", n: 4, k: 1}, c20Config{kind: "samplexml", n: 5, k: 2}, c20Config{kind: "samplexml", n: 3, k: 2, flag: true},
+		c20Config{kind: "samplenexus", n: 4, k: 1})
 	// ties between the in-process figures and the shipped binary
 	c20Configs = append(c20Configs,
 		c20Config{kind: "sample", n: 3, k: 1, process: true}, c20Config{kind: "sample", n: 5, k: 2, flag: true, process: true},
@@ -318,6 +324,83 @@ func runC20(c *Ctx, idx int, o *Obs) {
 				sort.Strings(got)
 			}
 			return strings.Join(got, ","), nil
+		}
+	case "samplexml", "samplenexus":
+		var ids []string
+		var ts []*tree.Tree
+		for i := 0; i < cfg.n; i++ {
+			ts = append(ts, mustParse(fmt.Sprintf("(a,b,(c,tree%d));", i)))
+			ids = append(ids, fmt.Sprint(i))
+		}
+		var doc string
+		var err error
+		fmtName := "phyloxml"
+		if cfg.kind == "samplenexus" {
+			fmtName = "nexus"
+			_ = err
+			doc = "#NEXUS\nBEGIN TREES;\n"
+			for i := range ts {
+				doc += fmt.Sprintf("  TREE t%d = (a,b,(c,tree%d));\n", i, i)
+			}
+			doc += "END;\n"
+		} else if doc, err = phyloxml.WritePhyloXML(chanOf(ts...)); err != nil {
+			o.Inconclusive = "cannot write the PhyloXML input: " + err.Error()
+			return
+		}
+		_ = os.WriteFile(in, []byte(doc), 0o644)
+		if cfg.flag {
+			cells = tuples(ids, cfg.k)
+		} else {
+			cells = subsets(ids, cfg.k)
+		}
+		draw = func(seed int64, vp bool) (string, error) {
+			s, err := run(vp, "sample", "-i", in, "-o", out, "-n", fmt.Sprint(cfg.k), fmt.Sprintf("--replace=%v", cfg.flag), "--seed", fmt.Sprint(seed), "--format", fmtName, "-t", "1")
+			if err != nil {
+				return "", err
+			}
+			var got []string
+			for _, l := range strings.Split(strings.TrimSpace(s), "\n") {
+				i := strings.Index(l, "tree")
+				if i < 0 {
+					return "", fmt.Errorf("unexpected output line %q", l)
+				}
+				got = append(got, strings.TrimRight(l[i+4:], ");"))
+			}
+			if !cfg.flag {
+				sort.Strings(got)
+			}
+			return strings.Join(got, ","), nil
+		}
+	case "prune2":
+		var tips []string
+		for i := 0; i < cfg.n; i++ {
+			tips = append(tips, fmt.Sprintf("t%d", i))
+		}
+		text := tips[0]
+		for _, t := range tips[1:] {
+			text = "(" + text + "," + t + ")"
+		}
+		// a first tree of another size, then the tree whose sampling is observed
+		_ = os.WriteFile(in, []byte("((x0,x1),(x2,x3),(x4,(x5,x6)));\n"+text+";\n"), 0o644)
+		keep := cfg.n - cfg.k
+		if cfg.flag {
+			keep = cfg.k
+		}
+		cells = subsets(tips, keep)
+		draw = func(seed int64, vp bool) (string, error) {
+			s, err := run(vp, "prune", "-i", in, "-o", out, "--random", fmt.Sprint(cfg.k), fmt.Sprintf("--revert=%v", cfg.flag), "--seed", fmt.Sprint(seed), "-c", "none", "-f", "none", "--format", "newick", "-t", "1")
+			if err != nil {
+				return "", err
+			}
+			lines := strings.Split(strings.TrimSpace(s), "\n")
+			if len(lines) != 2 {
+				return "", fmt.Errorf("%d output trees for 2 input trees", len(lines))
+			}
+			m, err := ref.ParseNewick(lines[1])
+			if err != nil {
+				return "", err
+			}
+			return strings.Join(m.SortedTips(), ","), nil
 		}
 	case "prune":
 		var tips []string
